@@ -184,29 +184,34 @@ func runC13(r *an.Run) {
 		})
 
 	r.Obl("restart-retriggers-closed-channel", "REG",
-		"progressStateMachineAfterRestart, for a channel already marked closed: the stages it re-triggers are exactly the stages in which stateStep accepts a close trigger (Default, BroadcastCommit, CommitmentBroadcasted); each close type maps to its own trigger; the trigger height is the recorded closing height",
+		"progressStateMachineAfterRestart, for a channel already marked closed: the stages it re-triggers are exactly the stages whose step in stateStep reads the trigger (Default, BroadcastCommit, CommitmentBroadcasted, and ContractClosed, which hands it to the chain-action evaluation); each close type maps to its own trigger; the trigger height is the recorded closing height",
 		"after the close is recorded no chain watcher exists any more; a pre-closed stage left with the chain trigger never receives a close event again and nothing is ever resolved", 8,
 		func(o *an.Obl) {
 			f := p.Func(arb + "progressStateMachineAfterRestart")
 			st := p.Func(arb + "stateStep")
-			// stages of stateStep whose case body switches on the trigger and names a close trigger
+			// stages of stateStep whose step depends on the trigger: the case
+			// body reads the trigger parameter (switching on it or handing it
+			// to the chain action evaluation, which leaves out not-yet-due
+			// HTLCs for a mere chain trigger)
 			accept := map[string]bool{}
+			var trigObj types.Object
+			if ps := st.Params(false); len(ps) > 1 {
+				trigObj = ps[1]
+			}
 			for _, es := range p.EnumSwitches("contractcourt", "ArbitratorState", "contractcourt") {
 				if es.Fn.ID != st.ID {
 					continue
 				}
 				for i, cl := range es.Stmt.Body.List {
 					names := es.Clauses[i]
-					hasClose := false
+					uses := false
 					ast.Inspect(cl, func(n ast.Node) bool {
-						if id, ok := n.(*ast.Ident); ok && (id.Name == "localCloseTrigger" || id.Name == "remoteCloseTrigger") {
-							if _, isCase := st.Info().Uses[id].(*types.Const); isCase {
-								hasClose = true
-							}
+						if id, ok := n.(*ast.Ident); ok && trigObj != nil && st.Info().Uses[id] == trigObj {
+							uses = true
 						}
 						return true
 					})
-					if hasClose {
+					if uses {
 						for _, n := range names {
 							accept[n] = true
 						}
@@ -227,15 +232,15 @@ func runC13(r *an.Run) {
 				o.FailAt(f.ID+"#switch", f.Where(f.Body.Pos()), "cannot find the stalled-stage switch")
 				return
 			}
-			o.Site("stateStep accepts close triggers in %v; restart re-triggers %v", keys(accept), keys(listed))
+			o.Site("stateStep reads the trigger in %v; restart re-triggers %v", keys(accept), keys(listed))
 			for k := range accept {
 				if !listed[k] {
-					o.FailAt(f.ID+"#stage-not-retriggered-"+k, f.Where(restartSw.Pos()), "stage %s accepts a close trigger in stateStep but is not re-triggered after a restart of a closed channel", k)
+					o.FailAt(f.ID+"#stage-not-retriggered-"+k, f.Where(restartSw.Pos()), "the step of stage %s depends on the trigger in stateStep but the stage is not re-triggered with the close trigger after a restart of a closed channel", k)
 				}
 			}
 			for k := range listed {
 				if !accept[k] {
-					o.FailAt(f.ID+"#stage-retriggered-"+k, f.Where(restartSw.Pos()), "stage %s is re-triggered after restart but stateStep accepts no close trigger there", k)
+					o.FailAt(f.ID+"#stage-retriggered-"+k, f.Where(restartSw.Pos()), "stage %s is re-triggered after restart but its step in stateStep does not read the trigger", k)
 				}
 			}
 			// fallthrough chain: every listed case must reach the inner switch
